@@ -17,7 +17,8 @@ RULE = (
     "line longer than the limit, docstring) x max_line_length in {60, 100}; import layouts: every sequence of <= 4 "
     "(quick 3) items over {stdlib import, third-party import, from import, def, class, assignment, comment} x 0-3 blank "
     "lines between items; nested-blank layouts: 9 code shapes with a run of 0-6 blank lines (empty or indented) inside "
-    "indented code. stage level: expandtabs(4), rmspace.format_str, fix_too_many_blank_lines, fix_line_lengths, "
+    "indented code; twin literals: 10 plain spellings x 14 f-string / %-format forms carrying the same text as a segment, format "
+    "spec or nested literal x 4 layouts. stage level: expandtabs(4), rmspace.format_str, fix_too_many_blank_lines, fix_line_lengths, "
     "fix_import_spacing called directly (sort_imports reorders statements and is not a layout stage): ast.dump(parse(out)) == ast.dump(parse(in)) with docstring "
     "whitespace normalised; minimize_whitespace_line_differences(a, b) over pairs where b is a after one edit from a "
     "menu: result tree == tree of b. pipeline level: inert programs 'w = <literal>; print(repr(w))' through format_code "
@@ -141,10 +142,26 @@ EDITS = ["blank_line_added_in_literal", "blank_line_removed_in_literal", "contin
          "blank_line_added_between_statements", "statement_replaced"]
 
 
+# a plain literal and an f-string (segment, format spec, nested literal) with the same text in one file (family added
+# after the seeded change C11-restore-strings-into-fstring-segments: restoring "the original spelling" of a string
+# value hit the f-string's pieces, which are not literals of their own)
+TWIN_PLAIN = ["'ms'", '"ms"', "'''ms'''", "r'ms'", "'d'", "'>4'", "'e'", "b'ms'", "'ms' 'ms'", "'{e}ms'"]
+TWIN_FSTR = ["f'{e}ms'", 'f"{e}ms"', "f'{e:d}'", "f'{e:>4}'", "f'ms{e}'", "f'{e!r}ms{e}d'", "f'''{e}\nms'''", "f'{\"ms\"}{e}'",
+             "'%s ms' % e", "f'{e:{w}d}'", "f'{e}' 'ms'", "rf'{e}ms'", "f'{{e}}ms{e}'", "f'{e:>4}' f'{e}ms'"]
+TWIN_LAYOUTS = {
+    "module": "e = 12\nw = 3\nunit = {P}\nprint({F}, unit)\n",
+    "function": "def show(e, w=3):\n    unit = {P}\n    return {F}, unit\nprint(show(12))\n",
+    "same_statement": "e = 12\nw = 3\nprint({F}, {P}, {F})\n",
+    "long_line": "e = 12\nw = 3\nprint({P}, {F}, 'padding padding padding padding', 'padding padding padding padding', 'padding padding')\n",
+}
+
+
 def units(tier):
     for kind in KINDS:
         for pos in POSITIONS:
             yield {"t": "literal", "kind": kind, "pos": pos}
+    for pl in TWIN_PLAIN:
+        yield {"t": "twins", "plain": pl}
     items = list(ITEMS)
     nmax = 3 if tier == "quick" else 4
     for first in items:
@@ -212,6 +229,28 @@ def run_literal(kind, pos, only=None):
                 if not v and not res["samples"]:
                     res["samples"].append(desc)
             res["viol"].extend(v)
+    return res
+
+
+def run_twins(plain, only=None):
+    res = {"n": 0, "nontrivial": [], "viol": [], "stats": {}, "samples": []}
+    for fs in TWIN_FSTR:
+        for lname, layout in TWIN_LAYOUTS.items():
+            src = layout.replace("{P}", plain).replace("{F}", fs)
+            for stage in LITERAL_STAGES:
+                desc = {"plain": plain, "fstring": fs, "twin_layout": lname, "stage": stage}
+                if only and desc != only:
+                    continue
+                v, status = check_stage(stage, src, desc, "twin_literals")
+                if status == "invalid_input":
+                    break
+                res["n"] += 1
+                res["stats"][status] = res["stats"].get(status, 0) + 1
+                if status == "changed":
+                    res["nontrivial"].append(key_of(desc))
+                    if not v and not res["samples"]:
+                        res["samples"].append(desc)
+                res["viol"].extend(v)
     return res
 
 
@@ -410,6 +449,8 @@ def run_unit(unit):
     t = unit["t"]
     if t == "literal":
         return run_literal(unit["kind"], unit["pos"])
+    if t == "twins":
+        return run_twins(unit["plain"])
     if t == "imports":
         return run_imports(unit["first"], unit["nmax"])
     if t == "nested_blanks":
@@ -423,6 +464,8 @@ def replay(desc):
     progs.worker_setup()
     if "nested_blanks" in desc:
         return run_nested_blanks(desc["nested_blanks"], only=desc)["viol"]
+    if "twin_layout" in desc:
+        return run_twins(desc["plain"], only=desc)["viol"]
     if "layout" in desc:
         return run_imports(desc["layout"][0], 4, only=desc)["viol"]
     if "edit" in desc:
@@ -433,6 +476,8 @@ def replay(desc):
 
 
 def explain(desc):
+    if "twin_layout" in desc:
+        return TWIN_LAYOUTS[desc["twin_layout"]].replace("{P}", desc["plain"]).replace("{F}", desc["fstring"])
     if "layout" in desc:
         return layout_source(desc["layout"], desc["blanks"])
     if "pos" in desc:
